@@ -59,7 +59,8 @@ ValueMenu == << Twelve, Frac, Tom, Esc, Yes, Nul, Ref("@t"), Ref("@a | @b"),
                 Obj(<< Key("in", FALSE) >>, << Kid(Twelve, Ann(<<Rule("max", RNum("100"))>>, 0)) >>),
                 Obj(<<>>, <<>>), Arr(<<>>),
                 Obj(<< Key("@k", TRUE), Key("z", FALSE) >>, << Kid(Yes, NoAnn), Kid(Arr(<< Kid(Nul, NoAnn) >>), NoAnn) >>),
-                Ctl >>
+                Ctl,
+                Ref("@a | @b | @t") >>    \* a choice of three: the reference text is reported with ` | ` between the names, however it is spaced
 
 \* annotation menus, indexed like ValueMenu; the first entries are the most basic ones
 AnnMenu == <<
@@ -131,7 +132,9 @@ AnnMenu == <<
   << Ann(<<>>, 1) >>,
   \* "a\fb\u0001"
   << Ann(<<Rule("const", RBool("true"))>>, 0), Ann(<<Rule("enum", RList(<< RStr("a<FF>b<SOH>"), RStr("x") >>))>>, 1),
-     Ann(<<Rule("maxLength", RNum(Half))>>, 0) >> >>
+     Ann(<<Rule("maxLength", RNum(Half))>>, 0) >>,
+  \* @a | @b | @t
+  << Ann(<<Rule("optional", RBool("true"))>>, 1), Ann(<<>>, 2) >> >>
 
 PropKeys == << Key("id", FALSE), Key("a\\\"b", FALSE), Key("last", FALSE) >>   \* text as written between the quotes
 
